@@ -397,3 +397,113 @@ pub fn run(args: &Args) -> i32 {
     }
     0
 }
+
+// ---------------------------------------------------------------------------------------------
+// action-level traces of MA::next_key_seed (hook verif_hooks::ma_trace_*), validated by TR_MapAccess
+// ---------------------------------------------------------------------------------------------
+#[derive(Serialize)]
+struct TStep {
+    act: &'static str,
+    out: &'static str,
+    pending: usize,
+    mstack: usize,
+    seen: usize,
+    flushing: bool,
+}
+#[derive(Serialize)]
+struct TRec<'a> {
+    id: String,
+    yaml: &'a str,
+    doc: &'a [AEv],
+    policy: &'a str,
+    steps: Vec<TStep>,
+    /// "ok" or the error class
+    res: String,
+}
+#[derive(Default, Serialize)]
+struct TStats {
+    cases: usize,
+    records: usize,
+    steps: usize,
+    merge_steps: usize,
+    skip_steps: usize,
+    error_traces: usize,
+}
+
+fn has_map_key_at_root(n: &Node) -> bool {
+    matches!(n, Node::Map { entries, .. } if entries.iter().any(|(k, _)| matches!(k, Node::Map { .. })))
+}
+
+fn trace_one(w: &mut NdWriter, id: String, text: &str, doc: &[AEv], stats: &mut TStats) {
+    for (pname, pol) in POLICIES {
+        let t = text.to_string();
+        let r = guarded(move || {
+            let mut o = serde_saphyr::Options::default();
+            o.duplicate_keys = pol;
+            serde_saphyr::verif_hooks::ma_trace_begin();
+            let r = serde_saphyr::from_str_with_options::<Tree>(&t, o);
+            let steps = serde_saphyr::verif_hooks::ma_trace_end();
+            (r.map(|_| ()).map_err(|e| classify(&e)), steps)
+        });
+        let (res, steps) = match r {
+            Ok((Ok(()), s)) => ("ok".to_string(), s),
+            Ok((Err(c), s)) => (c, s),
+            Err(p) => {
+                let _ = serde_saphyr::verif_hooks::ma_trace_end();
+                (format!("PANIC:{p}"), vec![])
+            }
+        };
+        // the root mapping's access object is the first one created in the call
+        let steps: Vec<TStep> = steps.into_iter().filter(|s| s.ma == 1).map(|s| TStep { act: s.act, out: s.out, pending: s.pending, mstack: s.mstack, seen: s.seen, flushing: s.flushing }).collect();
+        stats.steps += steps.len();
+        stats.merge_steps += steps.iter().filter(|s| s.out == "merge" || s.act == "FL" || s.act == "KP").count();
+        stats.skip_steps += steps.iter().filter(|s| s.out == "skip" || s.out == "dup").count();
+        if res != "ok" {
+            stats.error_traces += 1;
+        }
+        w.put(&TRec { id: format!("{id}-{pname}"), yaml: text, doc, policy: pname, steps, res });
+    }
+}
+
+pub fn run_traces(args: &Args) -> i32 {
+    let mut w = NdWriter::create(args.req("out"));
+    let mut stats = TStats::default();
+    let every = args.num("every", 1).max(1) as usize;
+    let mut one = |id: String, doc: &[AEv], flow: bool, w: &mut NdWriter, stats: &mut TStats| {
+        let Ok(nodes) = nodes_from_events(doc) else { return };
+        if nodes.len() != 1 || !matches!(nodes[0], Node::Map { .. }) || has_map_key_at_root(&nodes[0]) {
+            return;
+        }
+        let nm = Names(None);
+        let text = if flow { render_flow(&nodes[0], &nm) } else { render_block(&nodes[0], &nm) };
+        if render_check(&text, doc).is_err() {
+            return;
+        }
+        stats.cases += 1;
+        trace_one(w, id, &text, doc, stats);
+    };
+    if let Some(cases) = args.get("cases") {
+        let cases: Vec<Case> = read_ndjson(cases);
+        for (i, c) in cases.iter().enumerate() {
+            if i % every != 0 {
+                continue;
+            }
+            one(format!("t{i}"), &c.doc, i % 2 == 0, &mut w, &mut stats);
+        }
+    }
+    let nrand = args.num("random", 0);
+    let mut rng = Rng::new(args.num("seed", 1));
+    let focus04 = args.get("focus") == Some("C04");
+    for i in 0..nrand {
+        let mut lab = Lab(0);
+        let md = if rng.chance(1, 4) { 3 } else { 2 };
+        let node = if focus04 && i % 2 == 0 { dup_map(&mut rng, &mut lab) } else { merge_map(&mut rng, md, &mut lab) };
+        let mut doc = vec![];
+        events_from_node(&node, &mut doc);
+        one(format!("tr{i}"), &doc, rng.chance(1, 2), &mut w, &mut stats);
+    }
+    stats.records = w.n;
+    w.finish();
+    println!("{}", serde_json::to_string(&stats).unwrap());
+    0
+}
